@@ -10,6 +10,7 @@ import random
 from collections import Counter
 
 from codec import *  # noqa
+import reccorr
 
 PID = 'C16'
 
@@ -70,6 +71,11 @@ def run(tier, seed, t0):
                 failures.append({'class': 'error-kind', 'key': '%s %s' % (r['type'], r['input']),
                                  'what': '%s: %s %s on %s -> %s [%s]' % (bad, r['mode'], r['type'], r['input'], impl, cfg),
                                  'type': r['type'], 'mode': r['mode'], 'input': r['input'], 'result': impl, 'cfg': cfg})
+        # recursive derived items (Tree, List, Json, Rec) through their finite unfoldings
+        rstats, rdis, rfails = reccorr.rec_hostile_stage(cfg, exe, driver, seed, tier, 'c16')
+        disagreements += rdis
+        failures += rfails
+        reccorr.merge_stats(stats, rstats)
         if not stats['samples']:
             stats['samples'] = [{'type': r['type'], 'mode': r['mode'], 'input': r['input'], 'result': r['impl']} for r in drecs[7:4000:401]]
     stats['result_classes'] = dict(classes)
